@@ -390,7 +390,9 @@ func genPattern(t *rapid.T) Pattern {
 		lastVar := false
 		for k := 0; k < nparts; k++ {
 			if rapid.IntRange(0, 2).Draw(t, "isvar") == 0 && !lastVar {
-				p = append(p, Part{Var: fmt.Sprintf("v%d", vn), Class: rapid.SampledFrom(classes).Draw(t, "class")})
+				// (names differ between patterns of the same shape: what a handler is given are the
+				// names of *its* pattern)
+				p = append(p, Part{Var: fmt.Sprintf("%s%d", rapid.SampledFrom([]string{"v", "id", "name", "deviceID", "userID", "x"}).Draw(t, "varname"), vn), Class: rapid.SampledFrom(classes).Draw(t, "class")})
 				vn++
 				lastVar = true
 			} else {
@@ -445,7 +447,15 @@ func genScenario(t *rapid.T) Scenario {
 			// derive from an earlier pattern: prefix, or swap a variable for a literal (overlaps, equal lengths)
 			base := sc.Patterns[rapid.IntRange(0, len(sc.Patterns)-1).Draw(t, "base")]
 			p = append(Pattern{}, base[:rapid.IntRange(1, len(base)).Draw(t, "cutp")]...)
-			if rapid.Bool().Draw(t, "ext") {
+			if rapid.IntRange(0, 3).Draw(t, "rename") == 0 {
+				// the same shape under other variable names
+				p = append(Pattern{}, base...)
+				for k := range p {
+					if p[k].Var != "" {
+						p[k].Var = "r" + p[k].Var
+					}
+				}
+			} else if rapid.Bool().Draw(t, "ext") {
 				p = append(p, Part{Lit: "/" + rapid.SampledFrom(litAlphabet).Draw(t, "lit")})
 			}
 			var out Pattern
